@@ -77,7 +77,9 @@ def all_labels():
     return [lab for lab, _ in leaf_terms(r, t) if lab not in ("Star", "Index")] + [e["label"] for e in entries()] + ["subquery", "setop"]
 
 
-DEFINING = ["select", "select-second", "returning", "distinct-on", "insert-select"]
+DEFINING = ["select", "select-second", "returning", "distinct-on", "insert-select",
+            # the select list defines the same alias as well (for the same term / for another term): DISTINCT ON stays a defining position
+            "distinct-on-selected", "distinct-on-other-selected"]
 REFERRING = ["groupby-selected", "orderby-selected", "groupby-unselected", "orderby-unselected", "setop-orderby-selected",
              "groupby-selected-join", "groupby-selected-subquery",
              # the alias is defined only by a discarded sibling branch / another statement / a select list since replaced by *
@@ -94,7 +96,7 @@ def cases(tier, seed, shard, nshards):
     for d in DIALECT_CLASSES:
         for lab in labels:
             for pos in DEFINING + REFERRING:
-                if pos in ("returning", "distinct-on") and d != "PostgreSQLQuery":
+                if pos in ("returning", "distinct-on", "distinct-on-selected", "distinct-on-other-selected") and d != "PostgreSQLQuery":
                     continue
                 k += 1
                 if k % nshards == shard:
@@ -172,6 +174,10 @@ def build_position(case, aliased):
         return Q.into(t).insert(1).returning(x)
     if pos == "distinct-on":
         return Q.from_(t).select(y).distinct_on(x)
+    if pos == "distinct-on-selected":
+        return Q.from_(t).select(subject(case["label"], t, Q).as_(AL), y).distinct_on(x)
+    if pos == "distinct-on-other-selected":
+        return Q.from_(t).select(y.as_(AL), r["Field"]("third", table=t)).distinct_on(x)
     if pos == "groupby-selected":
         return Q.from_(t).select(x, y).groupby(x)
     if pos == "orderby-selected":
@@ -227,6 +233,8 @@ def run_position(case, mon):
     cls = lab.split(":")[0]
     ins = insertion(plain, ali, d)
     n_alias = sum(1 for t in tokenize(ali, d) if t.kind == "IDENT" and t.value == AL)
+    if pos in ("distinct-on-selected", "distinct-on-other-selected"):
+        n_alias -= sum(1 for t in tokenize(plain, d) if t.kind == "IDENT" and t.value == AL)  # (the select list's own definition)
     if pos in DEFINING:
         if n_alias == 0:
             mon.violation("dropped:%s:%s" % (cls, pos), "%s in %s position (%s): the alias is not emitted: %r" % (lab, pos, d, ali[:220]))
